@@ -658,6 +658,7 @@ class PackageGen:
         self.pool = []          # closed named types usable anywhere
         self.generic_defs = []  # (def, kind)
         self.pod_pool = []      # records made of fixed-size fields only
+        self.generic_pods = []  # generic records that are such records when instantiated with numbers
         for imp in (imports if cfg.use_imported_types else ()):
             for d in imp.defs():
                 if isinstance(d, Protocol):
@@ -766,6 +767,11 @@ class PackageGen:
         enums = [t for t in self.pool if isinstance(self.structural(t), tuple) and self.structural(t)[0] == "enum" and t.ns is None]
         if enums and r.chance(0.2):
             return r.choice(enums)
+        if self.cfg.arrays_of_records and self.generic_pods and r.fork("grecarr", len(self.pool)).chance(0.3):
+            k = r.fork("grecarr2", len(self.pool))
+            d = k.choice(self.generic_pods)
+            nums = ["float32", "float64", "uint8", "int8", "complexfloat32"] if self.cfg.complex_types else ["float32", "float64", "uint8", "int8"]
+            return Named(d.name, tuple(Prim(k.choice(nums)) for _ in d.params))      # an instantiation of a generic record as array element
         if self.cfg.arrays_of_records and self.pod_pool and r.fork("recarr", len(self.pool)).chance(0.35):
             return r.fork("recarr2", len(self.pool)).choice(self.pod_pool)        # arrays of records (NumPy structured dtypes; C++ arrays of structs)
         if self.cfg.time_types and r.fork("timearr", len(self.pool)).chance(0.15):
@@ -976,8 +982,26 @@ class PackageGen:
         self.pool.append(Named(name))
         self.pod_pool.append(Named(name))
 
+    def gen_generic_pod_record(self):
+        """`Pair<T, U>: {first: T, second: U, ...}`: a generic record that is a fixed-size-field record whenever its
+        arguments are numbers - each instantiation has its own layout."""
+        r = self.rng
+        name = self.type_name("Rec")
+        params = ("T", "U") if r.chance(0.6) else ("T",)
+        names = self.member_names(len(params) + 1)
+        fields = [(names[i], TParam(p)) for i, p in enumerate(params)] + [(names[-1], Prim(r.choice(["uint8", "float32", "float64"])))]
+        r.shuffle(fields)
+        d = Record(name, params, fields)
+        d._param_in_opt = d._param_in_vec = False
+        d._pod_generic = True
+        self.add(d, r.randrange(8))
+        self.generic_defs.append(d)
+        self.generic_pods.append(d)
+
     def gen_record(self):
         r, c = self.rng, self.cfg
+        if c.generics and c.arrays_of_records and not self.generic_pods and r.fork("gpod", len(self.pool)).chance(0.4):
+            return self.gen_generic_pod_record()
         if r.fork("pod", len(self.pool)).chance(c.p_pod_record):
             return self.gen_pod_record()
         generic = c.generics and r.chance(0.25)
